@@ -45,6 +45,13 @@ STATE_RE = re.compile(r"r(\d+)=(pq|dpq) m=\[([^\]]*)\] h=\[([^\]]*)\] q=\[([^\]]
 LIGHT_RE = re.compile(r"r(\d+)=(pq|dpq) .* s=(\d+)$")
 
 
+def op_tokens(op):
+    """tokens of a history line without the `unwinding` prefix (the harness runs the line
+    from a destructor during an unrelated unwinding; the operation is the same)"""
+    t = op.split()
+    return t[1:] if t and t[0] == "unwinding" else t
+
+
 def split_line(line, light=False):
     """-> (out, ticks, {reg: (kind, entries[(k,pl,p)], heap, qp, size)});
     light: only kind and size are filled in (the cost oracle needs no more, and
@@ -115,9 +122,9 @@ def coverage_of(hist, trace, distinct, opcount, samples):
         prev = ""
         for op, line in zip(ops, lines):
             steps += 1
-            tok = op.split()[0]
+            tok = op_tokens(op)[0]
             if tok == "fuse":
-                tok = "fuse+" + op.split()[2]
+                tok = "fuse+" + op_tokens(op)[2]
             opcount[tok] = opcount.get(tok, 0) + 1
             st = state_part(line)
             if st != prev or not line.startswith("unit"):
@@ -196,7 +203,7 @@ class Oracle:
 
     def step(self, op, line):
         out, ticks, regs = split_line(line, self.light)
-        toks = op.split()
+        toks = op_tokens(op)
         if toks[0] == "fuse":
             toks = toks[2:]
             fused = True
@@ -345,7 +352,7 @@ def classify_fault(ops, lines, k):
     for j in range(min(k, len(lines))):
         _, _, regs = split_line(lines[j])
         if any(wf_violation(r) for r in regs.values()):
-            toks = ops[j].split()
+            toks = op_tokens(ops[j])
             name = toks[2] if toks[0] == "fuse" else toks[0]
             if not lines[j].startswith("unwound"):
                 return "not-an-unwinding:" + name, j
@@ -366,7 +373,7 @@ def classify_silent_tail(ev):
     if cls is not None:
         return cls, j
     for j in range(ev["step"], len(ev["all_ops"])):
-        toks = ev["all_ops"][j].split()
+        toks = op_tokens(ev["all_ops"][j])
         if toks[0] == "fuse":
             if toks[2] in SIFT_UP_OPS:
                 return "sift_up.unwind", j
@@ -441,7 +448,7 @@ class ContentOracle(Oracle):
         if why:
             return why
         out, ticks, regs = split_line(line)
-        toks = op.split()
+        toks = op_tokens(op)
         fused = toks[0] == "fuse"
         if fused:
             toks = toks[2:]
@@ -747,7 +754,7 @@ class CostOracle(Oracle):
         if why:
             return why
         out, ticks, regs = split_line(line, True)
-        t = op.split()
+        t = op_tokens(op)
         if t[0] == "fuse" or out in ("invalid", "unwound") or out.startswith("fault") or ticks < 0:
             return None
         name = t[0]
